@@ -199,8 +199,14 @@ pub fn explore<M: Model>(ctx: &Ctx, family: &str, model: &M, opts: ExploreOpts) 
             classes.lock().unwrap().extend(local_classes);
         });
         if nondeterminism.load(Ordering::SeqCst) {
-            eprintln!("MACHINERY ERROR: nondeterministic replay in family {}", family);
-            std::process::exit(2);
+            // The same event history produced two different canonical states: the harness does not own some choice - or the
+            // tree under check lets behaviour depend on values it draws at random. Not a verdict by itself: the family is
+            // abandoned, the other families go on, and the run ends as a machinery error unless a violation is confirmed.
+            let msg = format!("nondeterministic replay in family {} at depth {} (the same history led to different canonical states)", family, depth);
+            eprintln!("MACHINERY ERROR: {}", msg);
+            ctx.machinery.lock().unwrap().push(msg.clone());
+            cap_hit = Some(msg);
+            break;
         }
         if capped.load(Ordering::SeqCst) {
             cap_hit = Some(format!("wall cap {:?} hit while expanding depth {}", opts.wall_cap, depth));
@@ -347,14 +353,10 @@ where
             for fp in cum_a.difference(&cum_b).take(5) {
                 eprintln!("  only with dedup: {:016x} via {}", fp, with_dedup.repr.get(fp).cloned().unwrap_or_default());
             }
-            eprintln!(
-                "MACHINERY ERROR: dedup audit failed for {} at depth {}: {} states with dedup, {} without",
-                family,
-                k,
-                cum_a.len(),
-                cum_b.len()
-            );
-            std::process::exit(2);
+            let msg = format!("dedup audit failed for {} at depth {}: {} states with dedup, {} without", family, k, cum_a.len(), cum_b.len());
+            eprintln!("MACHINERY ERROR: {}", msg);
+            ctx.machinery.lock().unwrap().push(msg);
+            return;
         }
     }
 }
